@@ -67,10 +67,34 @@ GRIDS = [
     # the values tell whether the data were re-laid out for the consumer
     {"kind": "grid", "dims": [3, 3], "orderF": True, "crev": True},
     {"kind": "grid", "dims": [4, 4], "orderF": False, "crev": True},
+    # both ends index [y, x] but run along the axes in different directions (bottom-up producer, top-down raster
+    # consumer and the like): again equal data shapes, only the values tell
+    {"kind": "grid", "dims": [4, 3], "orderF": False, "lay": {"p": [True, [True, True]], "c": [True, [True, False]]}},
+    {"kind": "grid", "dims": [3, 4], "orderF": True, "lay": {"p": [True, [False, True]], "c": [True, [True, True]]}},
+    {"kind": "grid", "dims": [3, 3], "orderF": False, "lay": {"p": [False, [True, False]], "c": [True, [True, True]]}},
+    {"kind": "grid", "dims": [4, 3], "orderF": False, "lay": {"p": [False, [True, True]], "c": [False, [False, True]]}},
 ]
 
 
+def to_producer_layout(g, mag):
+    """delivered data (time axis first) in the consumer's layout, re-indexed the way the producer indexes its data"""
+    (prev, pinc), (crev, cinc) = g["lay"]["p"], g["lay"]["c"]
+    n = mag.ndim - 1
+    a = mag
+    if crev:
+        a = a.transpose([0] + list(range(n, 0, -1)))
+    for i in range(n):
+        if cinc[i] != pinc[i]:
+            a = np.flip(a, axis=i + 1)
+    if prev:
+        a = a.transpose([0] + list(range(n, 0, -1)))
+    return a
+
+
 def mk_grid(g, consumer=False):
+    if g.get("lay"):
+        rev, inc = g["lay"]["c" if consumer else "p"]
+        return fm.UniformGrid(tuple(g["dims"]), order="F" if g["orderF"] else "C", axes_reversed=rev, axes_increase=inc)
     if consumer and g.get("crev"):
         return fm.UniformGrid(tuple(g["dims"]), order="F" if g["orderF"] else "C", axes_reversed=True)
     if g["kind"] == "nogrid":
@@ -81,7 +105,8 @@ def mk_grid(g, consumer=False):
 def grid_shape(g):
     if g["kind"] == "nogrid":
         return [3] * g["dim"]  # payload shape used for NoGrid(dim)
-    return [d - 1 for d in g["dims"]]
+    shape = [d - 1 for d in g["dims"]]
+    return shape[::-1] if g.get("lay") and g["lay"]["p"][0] else shape   # the producer's data shape
 
 
 FORMS = ["shaped", "timeaxis", "flat", "list", "wrongsize", "wrongshape", "quantity", "foreign", "incompatible", "shared", "sharedview"]
@@ -261,6 +286,8 @@ def run_impl(case):
                 mag = np.asarray(fm.data.get_magnitude(v))
                 if case["grid"].get("crev") and mag.ndim == 3:
                     mag = mag.transpose(0, 2, 1)   # back to the producer's [x, y] indexing for the comparison
+                if case["grid"].get("lay") and mag.ndim == 3:
+                    mag = to_producer_layout(case["grid"], mag)
                 results.append({"ok": {"shape": list(mag.shape), "data": [float(x) for x in mag.reshape(-1)],
                                        "units": str(v.units)}})
             except Exception as e:  # noqa
